@@ -434,6 +434,30 @@ impl<'a> Model<'a> {
                 }
             }
             Conduit::GenNext => self.invoke(func, a, line, c.conduit),
+            Conduit::OpIterator => {
+                let r1 = self.invoke(func, 0, line, c.conduit)?;
+                let r2 = self.invoke(func, 1, line, c.conduit)?;
+                Ok(r1.wrapping_add(r2))
+            }
+            Conduit::GenYieldInTry => {
+                // for x in a..=a+1: try { yield f(x); yield f(x + 10) } catch e { yield -1 }
+                let mut sum = 0i64;
+                for x in [a, a.wrapping_add(1)] {
+                    for arg in [x, x.wrapping_add(10)] {
+                        match self.invoke(func, arg, line, c.conduit) {
+                            Ok(v) => sum = sum.wrapping_add(v),
+                            Err(Abrupt::Throw(t)) => {
+                                self.out.caught.push((0, t.thrown.class()));
+                                self.out.sig.push("caught-in-suspended-generator-frame".into());
+                                sum = sum.wrapping_add(-1);
+                                break; // the rest of the try block is skipped
+                            }
+                            Err(other) => return Err(other),
+                        }
+                    }
+                }
+                Ok(sum)
+            }
             Conduit::GenCatchFor => {
                 // the generator itself catches whatever f throws and yields -1 instead
                 let mut sum = 0i64;
@@ -574,6 +598,26 @@ impl<'a> Model<'a> {
             Stmt::Dump(n) => self.dump(*n, f),
             Stmt::Expr(e) => {
                 self.eval(e, f)?;
+            }
+            Stmt::AddAssign(v, e) => {
+                let x = self.eval(e, f)?;
+                f.i[*v as usize] = f.i[*v as usize].wrapping_add(x);
+            }
+            Stmt::ChainAssign(v, e) => {
+                // the continuation line is a callback of a native adaptor
+                let r = self.eval(e, f);
+                match r {
+                    Ok(x) => f.i[*v as usize] = x,
+                    Err(Abrupt::Throw(mut t)) => {
+                        t.crossed_opaque = true;
+                        return Err(Abrupt::Throw(t));
+                    }
+                    Err(o) => return Err(o),
+                }
+            }
+            Stmt::MatchAssign(v, e, e2) => {
+                let x = self.eval(e, f)?;
+                f.i[*v as usize] = if x == 0 { 10 } else { self.eval(e2, f)? };
             }
             Stmt::AssignLambdaCall(v, func, arg, site) => {
                 let a = self.eval(arg, f)?;
